@@ -169,7 +169,10 @@ let field_of (p : string) (obs : string) : string =
 
 let predict_ammo fmt en depth nto k fin file toks obs =
   let cfg = { at_enabled = bool_of_field en; at_depth = nat_of_int (int_of_string depth); at_notagonly = bool_of_field nto } in
-  let ki = int_of_string k in
+  (* "<k>" or "<k>x<g>": k acquisitions by g concurrently shooting instances *)
+  let (kf, gf) = cut 'x' k in
+  let ki = int_of_string kf in
+  let conc = gf <> "" && int_of_string gf > 1 in
   let kn = nat_of_int ki in
   let fileb = bytes_of_hex file and fin = bool_of_field fin in
   let one = n_of_int 1 in
@@ -225,7 +228,11 @@ let predict_ammo fmt en depth nto k fin file toks obs =
   | None -> ("render-mismatch", "BAD:render-mismatch", false)
   | Some (model, ndel, spec, wf) ->
       let ids_of (l : sample list) = if l = [] then "-" else String.concat "," (List.map (fun (s : sample) -> string_of_n s.sm_id) l) in
-      let line l ids fin = Printf.sprintf "%s ids=%s end=%s" (s_samples l) ids fin in
+      (* concurrent instances: the order of the samples is the scheduler's (C10_ammo_concurrent_instances):
+         both sides are printed sorted, like the observation *)
+      let canon (l : sample list) = if conc then List.stable_sort (fun a b -> compare (s_sample a) (s_sample b)) l else l in
+      let ids_of l = if conc then ids_of (List.sort (fun (a : sample) (b : sample) -> compare (int_of_n a.sm_id) (int_of_n b.sm_id)) l) else ids_of l in
+      let line l ids fin = Printf.sprintf "%s ids=%s end=%s" (s_samples (canon l)) ids fin in
       let pred = line model (ids_of model) (if ndel >= ki then "more" else "stopped") in
       (* specification: one sample per ammo of the file (cyclically), each with the tag chosen from
          the tag written on ITS line, the status its exchange received; ids pairwise distinct *)
